@@ -77,6 +77,11 @@ def docs():
     d.entity("ex:big", {"ex:k": "é" + "x" * 20000})
     out.append(("20kB-string", d))
     d = new()
+    # multi-byte characters every 7 bytes: whatever the block size of a chunked copy, some block
+    # boundary falls inside a character
+    d.entity("ex:dense", {"ex:k": "éxxxxx" * 4000, "ex:k2": "漢xx" * 3000})
+    out.append(("30kB-dense-non-ascii", d))
+    d = new()
     d.entity("ex:e1", {"ex:k": "l1\nl2 \"quoted\" <&> ]]> \\ \t end"})
     out.append(("markup-string", d))
     d = new()
